@@ -1,1 +1,458 @@
+(* C11_Proofs.v — lemmas and proofs for C11.  The heart is loop_perm: for EVERY batch, every
+   death point and every client script, the outcome log after the loop plus the callbacks
+   still registered is a permutation of "own verdict for the cases before the fault point,
+   the fault's mark for the others". *)
+From Coq Require Import Lia Permutation.
 From V Require Export C11_Spec.
+Open Scope nat_scope.
+
+(* ====================================================================== *)
+(* small facts about the log                                              *)
+(* ====================================================================== *)
+Lemma count_app n a b : count n (a ++ b) = count n a + count n b.
+Proof. unfold count. rewrite filter_app, app_length. reflexivity. Qed.
+
+Lemma count_perm n a b : Permutation a b -> count n a = count n b.
+Proof.
+  unfold count. induction 1; simpl; try lia.
+  - destruct (bytes_eqb n (fst x)); simpl; lia.
+  - destruct (bytes_eqb n (fst x)), (bytes_eqb n (fst y)); simpl; lia.
+Qed.
+
+Lemma count_pos_in n log : (1 <= count n log) <-> In n (map fst log).
+Proof.
+  unfold count. induction log as [|[m k] r IH]; simpl; [split; [lia|tauto]|].
+  destruct (bytes_eqb_spec n m) as [->|Hne]; simpl.
+  - split; [auto|lia].
+  - rewrite IH. split; [auto|]. intros [E|H]; [congruence|exact H].
+Qed.
+
+Lemma count_notin n log : ~ In n (map fst log) -> count n log = 0.
+Proof. intros H. pose proof (proj1 (count_pos_in n log)). destruct (count n log); [reflexivity|]. exfalso; apply H, H0; lia. Qed.
+
+Lemma count_nodup n log : NoDup (map fst log) -> In n (map fst log) -> count n log = 1.
+Proof.
+  unfold count. induction log as [|[m k] r IH]; simpl; [tauto|].
+  intros ND HI. inversion ND as [|? ? Hn ND']; subst.
+  destruct (bytes_eqb_spec n m) as [->|Hne]; simpl.
+  - f_equal. apply (count_notin m r Hn).
+  - destruct HI as [E|HI]; [congruence|]. apply IH; assumption.
+Qed.
+
+Lemma final_none n log : final n log = None <-> ~ In n (map fst log).
+Proof.
+  induction log as [|[m k] r IH]; simpl; [tauto|].
+  destruct (final n r) eqn:E.
+  - split; [discriminate|]. intros H. exfalso. apply H. right.
+    destruct (in_dec (list_eq_dec N.eq_dec) n (map fst r)) as [i|ni]; [exact i|].
+    apply IH in ni. congruence.
+  - destruct (bytes_eqb_spec n m) as [->|Hne].
+    + split; [discriminate|]. intros H; exfalso; apply H; left; reflexivity.
+    + split; [|reflexivity]. intros _ [Hm|Hr]; [congruence|]. apply IH in Hr; [exact Hr|reflexivity].
+Qed.
+
+Lemma final_nodup n k log : NoDup (map fst log) -> In (n, k) log -> final n log = Some k.
+Proof.
+  induction log as [|[m k'] r IH]; simpl; [tauto|].
+  intros ND HI. inversion ND as [|? ? Hn ND']; subst.
+  destruct HI as [E|HI].
+  - inversion E; subst. assert (final n r = None) as -> by (apply final_none; exact Hn).
+    rewrite bytes_eqb_refl. reflexivity.
+  - rewrite (IH ND' HI). reflexivity.
+Qed.
+
+Lemma has_outcome_in n log : has_outcome n log = true <-> In n (map fst log).
+Proof.
+  unfold has_outcome. rewrite existsb_exists. split.
+  - intros (e & He & E). apply bytes_eqb_eq in E. subst. apply in_map. exact He.
+  - intros H. apply in_map_iff in H. destruct H as (e & E & He). exists e. split; [exact He|].
+    apply bytes_eqb_eq. congruence.
+Qed.
+
+(* ====================================================================== *)
+(* failRemaining                                                          *)
+(* ====================================================================== *)
+Lemma fail_remaining_keeps cs : forall log n, In n (map fst log) -> In n (map fst (fail_remaining cs log)).
+Proof.
+  induction cs as [|c r IH]; intros log n H; simpl; [exact H|].
+  apply IH. destruct (has_outcome (c_name c) log); [exact H|].
+  rewrite map_app, in_app_iff. left; exact H.
+Qed.
+
+Lemma fail_remaining_covers cs : forall log c, In c cs -> In (c_name c) (map fst (fail_remaining cs log)).
+Proof.
+  induction cs as [|c' r IH]; intros log c H; simpl; [destruct H|].
+  destruct H as [->|H]; [|apply IH; exact H].
+  apply fail_remaining_keeps.
+  destruct (has_outcome (c_name c) log) eqn:E; [apply has_outcome_in; exact E|].
+  rewrite map_app, in_app_iff. right; left; reflexivity.
+Qed.
+
+Lemma fail_remaining_id cs : forall log,
+  (forall c, In c cs -> In (c_name c) (map fst log)) -> fail_remaining cs log = log.
+Proof.
+  induction cs as [|c r IH]; intros log H; simpl; [reflexivity|].
+  assert (has_outcome (c_name c) log = true) as -> by (apply has_outcome_in, H; left; reflexivity).
+  apply IH. intros c' Hc'. apply H. right; exact Hc'.
+Qed.
+
+(* ====================================================================== *)
+(* callbacks                                                              *)
+(* ====================================================================== *)
+Definition ents (p : list (nat * case)) : list (bytes * okind) := map entry (map snd p).
+Definition all_entries (l : lstate) : list (bytes * okind) := l_log l ++ ents (l_pend l).
+Definition pstate (l : lstate) : nat := l_ends l + (if l_alive l then 1 else 0).
+
+Lemma tick_spec rc p : forall l p' l',
+  tick rc p l = (p', l') ->
+  Permutation (l_log l' ++ ents p') (l_log l ++ ents p) /\
+  l_pend l' = l_pend l /\ l_sent l' = l_sent l /\ l_alive l' = l_alive l /\ l_ends l' = l_ends l.
+Proof.
+  induction p as [|[d c] r IH]; intros l p' l' H; simpl in H.
+  - inversion H; subst. repeat split. apply Permutation_refl.
+  - destruct d as [|k].
+    + apply IH in H. destruct H as (P & H1 & H2 & H3 & H4). simpl in *.
+      repeat split; try assumption.
+      unfold ents in *. simpl. rewrite <- app_assoc in P. exact P.
+    + destruct (tick rc r l) as [r' l''] eqn:E. inversion H; subst.
+      destruct (IH _ _ _ E) as (P & H1 & H2 & H3 & H4).
+      repeat split; try assumption.
+      unfold ents in *. simpl. apply Permutation_elt. exact P.
+Qed.
+
+Lemma tick_all_spec rc l :
+  Permutation (all_entries (tick_all rc l)) (all_entries l) /\
+  l_sent (tick_all rc l) = l_sent l /\ l_alive (tick_all rc l) = l_alive l /\
+  l_ends (tick_all rc l) = l_ends l.
+Proof.
+  unfold tick_all. destruct (tick rc (l_pend l) (set_pend l [])) as [p' l'] eqn:E.
+  destruct (tick_spec _ _ _ _ _ E) as (P & H1 & H2 & H3 & H4).
+  unfold all_entries. simpl in *. repeat split; assumption.
+Qed.
+
+Lemma fire_all_spec rc p : forall l,
+  l_log (fire_all rc p l) = l_log l ++ ents p /\ l_pend (fire_all rc p l) = l_pend l /\
+  l_sent (fire_all rc p l) = l_sent l /\ l_alive (fire_all rc p l) = l_alive l /\
+  l_ends (fire_all rc p l) = l_ends l.
+Proof.
+  induction p as [|[d c] r IH]; intros l; simpl.
+  - unfold ents; simpl. rewrite app_nil_r. repeat split.
+  - destruct (IH (fire rc c l)) as (H0 & H1 & H2 & H3 & H4). simpl in *.
+    repeat split; try assumption. rewrite H0. unfold ents. simpl. rewrite <- app_assoc. reflexivity.
+Qed.
+
+Lemma wait_all_spec rc l :
+  l_log (wait_all rc l) = all_entries l /\ l_pend (wait_all rc l) = [] /\
+  l_sent (wait_all rc l) = l_sent l /\ l_alive (wait_all rc l) = l_alive l /\
+  l_ends (wait_all rc l) = l_ends l.
+Proof.
+  unfold wait_all. destruct (fire_all_spec rc (l_pend l) (set_pend l [])) as (H0 & H1 & H2 & H3 & H4).
+  simpl in *. repeat split; assumption.
+Qed.
+
+Lemma die_spec l :
+  l_log (die l) = l_log l /\ l_pend (die l) = l_pend l /\ l_sent (die l) = l_sent l /\
+  l_alive (die l) = false /\ pstate (die l) = pstate l.
+Proof. unfold die, pstate. destruct (l_alive l) eqn:E; simpl; rewrite ?E; repeat split; lia. Qed.
+
+(* ====================================================================== *)
+(* the send loop                                                          *)
+(* ====================================================================== *)
+Definition fp (dead : option nat) (cs : list case) : nat :=
+  match dead with Some d => Nat.min d (sends_ok cs) | None => sends_ok cs end.
+Definition fk (dead : option nat) (cs : list case) : okind :=
+  match dead with Some d => if d <=? sends_ok cs then KSetup else KCouldNotRun | None => KCouldNotRun end.
+
+Definition canon (dead : option nat) (cs : list case) : list (bytes * okind) :=
+  map entry (firstn (fp dead cs) cs) ++ map (mark (fk dead cs)) (skipn (fp dead cs) cs).
+
+Lemma canon_step d c rest :
+  is_zero d = false -> c_send c = true ->
+  canon d (c :: rest) = entry c :: canon (count_down d) rest.
+Proof.
+  intros Hz Hs. unfold canon, fp, fk. simpl. rewrite Hs.
+  destruct d as [[|d]|]; simpl in *; try discriminate; reflexivity.
+Qed.
+
+Lemma canon_stop d c rest :
+  is_zero d = true \/ c_send c = false ->
+  canon d (c :: rest) = map (mark (if is_zero d then KSetup else KCouldNotRun)) (c :: rest).
+Proof.
+  intros H. unfold canon, fp, fk. cbn [sends_ok].
+  destruct d as [[|d]|]; cbn [is_zero] in *.
+  - reflexivity.
+  - destruct H as [H|H]; [discriminate|]. rewrite H. reflexivity.
+  - destruct H as [H|H]; [discriminate|]. rewrite H. reflexivity.
+Qed.
+
+Lemma loop_perm rc cs : forall dead l l' ex,
+  l_alive l = negb (is_zero dead) ->
+  send_loop rc dead cs l = (l', ex) ->
+  Permutation (all_entries l') (all_entries l ++ canon dead cs) /\ pstate l' = pstate l.
+Proof.
+  induction cs as [|c rest IH]; intros dead l l' ex Hal H.
+  - simpl in H. inversion H; subst. unfold canon. simpl.
+    destruct dead; simpl; rewrite ?Nat.min_0_r; simpl; rewrite app_nil_r; split; auto.
+  - cbn [send_loop] in H. rewrite Hal in H.
+    destruct (is_zero dead) eqn:Hz; cbn [negb] in H.
+    + (* the server is dead: mark the rest *)
+      inversion H; subst. rewrite canon_stop by (left; exact Hz). rewrite Hz.
+      unfold all_entries, mark_all, pstate. simpl. split; [|reflexivity].
+      rewrite <- !app_assoc. apply Permutation_app_head. apply Permutation_app_comm.
+    + destruct (c_send c) eqn:Hs.
+      * (* accepted *)
+        match type of H with send_loop _ _ _ ?l3 = _ => set (L3 := l3) in * end.
+        match type of L3 with _ => idtac end.
+        assert (Hal3 : l_alive L3 = negb (is_zero (count_down dead))).
+        { subst L3. destruct (is_zero (count_down dead)).
+          - apply die_spec.
+          - cbn [negb]. etransitivity; [apply tick_all_spec|]. reflexivity. }
+        destruct (IH _ _ _ _ Hal3 H) as (P & Hp).
+        rewrite canon_step by assumption.
+        assert (P3 : Permutation (all_entries L3) (all_entries l ++ [entry c]) /\ pstate L3 = pstate l).
+        { subst L3.
+          match goal with |- context [tick_all rc ?x] => set (L1 := x) end.
+          destruct (tick_all_spec rc L1) as (Pt & _ & Ha & He).
+          assert (Pt' : Permutation (all_entries (tick_all rc L1)) (all_entries l ++ [entry c])).
+          { etransitivity; [exact Pt|]. subst L1. unfold all_entries, ents. simpl.
+            rewrite !map_app. simpl. rewrite app_assoc. apply Permutation_refl. }
+          assert (Hps : pstate (tick_all rc L1) = pstate l).
+          { unfold pstate. rewrite Ha, He. subst L1. simpl. rewrite Hal. reflexivity. }
+          destruct (is_zero (count_down dead)).
+          - destruct (die_spec (tick_all rc L1)) as (D0 & D1 & _ & _ & D4).
+            split; [|congruence]. unfold all_entries in *. rewrite D0, D1. exact Pt'.
+          - split; assumption. }
+        destruct P3 as (P3 & Hp3). split; [|congruence].
+        etransitivity; [exact P|]. rewrite P3. rewrite <- app_assoc. simpl. apply Permutation_refl.
+      * (* sendRequest failed: mark this one and the rest, break *)
+        inversion H; subst. rewrite canon_stop by (right; exact Hs). rewrite Hz.
+        unfold all_entries, mark_all, pstate. simpl. split; [|rewrite Hal; reflexivity].
+        rewrite <- !app_assoc. apply Permutation_app_head. apply Permutation_app_comm.
+Qed.
+
+(* ====================================================================== *)
+(* the whole function                                                     *)
+(* ====================================================================== *)
+Lemma prefault_false sv :
+  prefault sv = false ->
+  s_start sv = true /\ s_write sv = WOk /\
+  exists cert, s_resp sv = RValid cert /\ s_tls sv && negb cert = false.
+Proof.
+  unfold prefault. destruct (s_start sv), (s_write sv), (s_resp sv) as [cert|]; simpl; try discriminate.
+  intros H. repeat split. exists cert. split; [reflexivity|exact H].
+Qed.
+
+Local Arguments early : simpl never.
+
+Lemma early_log cs sbs fwd alive : r_log (early cs sbs fwd alive) = map (mark KSetup) cs.
+Proof. unfold early, abort_proc, die. destruct alive; reflexivity. Qed.
+
+Ltac early_tac :=
+  intros;
+  first [ reflexivity | apply early_log
+        | unfold early, abort_proc, die; simpl;
+          match goal with |- context [negb (is_zero ?d)] => destruct (negb (is_zero d)) end; reflexivity ].
+
+Lemma run_prefault sv cs :
+  prefault sv = true -> r_log (run_batch false sv cs) = map (mark KSetup) cs.
+Proof.
+  unfold prefault, run_batch. destruct (s_start sv); simpl; [|reflexivity].
+  destruct (if s_refsrv sv then _ else _) as [sbs fwd].
+  destruct (s_write sv); simpl; [|early_tac..].
+  destruct (s_resp sv) as [cert|]; simpl; [|early_tac].
+  intros ->. early_tac.
+Qed.
+
+Lemma run_loop sv cs :
+  prefault sv = false ->
+  exists base, Permutation base (canon (s_dead sv) cs) /\
+               r_log (run_batch false sv cs) = fail_remaining cs base /\
+               r_pend (run_batch false sv cs) = [].
+Proof.
+  intros H. destruct (prefault_false sv H) as (Hs & Hw & cert & Hr & Hc).
+  unfold run_batch. rewrite Hs, Hw, Hr, Hc. simpl.
+  destruct (if s_refsrv sv then _ else _) as [sbs fwd].
+  match goal with |- context [send_loop ?a ?b ?c ?d] => destruct (send_loop a b c d) as [l1 ex] eqn:E end.
+  apply loop_perm in E; [|reflexivity]. destruct E as (P & _).
+  exists (all_entries l1). split; [exact P|].
+  destruct (wait_all_spec (s_refcli sv) l1) as (W0 & W1 & _).
+  destruct (die_spec (wait_all (s_refcli sv) l1)) as (D0 & D1 & _).
+  destruct (die_spec (abort_proc (wait_all (s_refcli sv) l1))) as (E0 & E1 & _).
+  unfold abort_proc in *.
+  destruct ex; simpl; rewrite ?E1, ?D1, ?D0, ?W0, ?W1; split; reflexivity.
+Qed.
+
+Lemma map_fst_mark k cs : map fst (map (mark k) cs) = names cs.
+Proof. unfold names. rewrite map_map. reflexivity. Qed.
+
+Lemma map_fst_entry cs : well_named cs -> map fst (map entry cs) = names cs.
+Proof.
+  unfold names. induction 1 as [|c r Hc _ IH]; simpl; [reflexivity|]. rewrite IH, Hc. reflexivity.
+Qed.
+
+Lemma well_named_firstn k cs : well_named cs -> well_named (firstn k cs).
+Proof.
+  unfold well_named. rewrite !Forall_forall. intros H c Hc. apply H.
+  rewrite <- (firstn_skipn k cs). apply in_or_app. left; exact Hc.
+Qed.
+
+Lemma canon_fst dead cs : well_named cs -> map fst (canon dead cs) = names cs.
+Proof.
+  intros W. unfold canon. rewrite map_app, map_fst_mark, map_fst_entry by (apply well_named_firstn; exact W).
+  unfold names. rewrite <- map_app, firstn_skipn. reflexivity.
+Qed.
+
+Lemma nth_firstn {A} (l : list A) : forall i k x, nth_error l i = Some x -> i < k -> In x (firstn k l).
+Proof.
+  induction l as [|y r IH]; intros [|i] [|k] x H Hk; simpl in *; try discriminate; try lia.
+  - inversion H; left; reflexivity.
+  - right. apply (IH i k x H). lia.
+Qed.
+
+Lemma nth_skipn {A} (l : list A) : forall i k x, nth_error l i = Some x -> k <= i -> In x (skipn k l).
+Proof.
+  induction l as [|y r IH]; intros [|i] [|k] x H Hk; simpl in *; try discriminate; try lia.
+  - inversion H; left; reflexivity.
+  - right. eapply nth_error_In; exact H.
+  - apply (IH i k x H). lia.
+Qed.
+
+Lemma canon_in dead cs i c :
+  well_named cs -> nth_error cs i = Some c ->
+  In (c_name c, if i <? fp dead cs then verdict (c_ans c) else fk dead cs) (canon dead cs).
+Proof.
+  intros W H. unfold canon. apply in_or_app.
+  destruct (Nat.ltb_spec i (fp dead cs)) as [L|L].
+  - left. apply in_map_iff. exists c. split; [|eapply nth_firstn; eassumption].
+    unfold entry. f_equal. unfold well_named in W. rewrite Forall_forall in W. apply W.
+    eapply nth_error_In; exact H.
+  - right. apply in_map_iff. exists c. split; [reflexivity|eapply nth_skipn; eassumption].
+Qed.
+
+(* with distinct names and a client that reports the names it was given: the outcome map
+   holds exactly the batch's names, each set once, each with the specified outcome *)
+Lemma run_log_canonical sv cs :
+  distinct cs -> well_named cs ->
+  let log := r_log (run_batch false sv cs) in
+  NoDup (map fst log) /\ Permutation (map fst log) (names cs) /\
+  forall i c, nth_error cs i = Some c -> In (c_name c, expected sv cs i c) log.
+Proof.
+  intros D W. unfold expected. destruct (prefault sv) eqn:Hp; cbv zeta.
+  - rewrite run_prefault by exact Hp. rewrite map_fst_mark. repeat split; [exact D|apply Permutation_refl|].
+    intros i c H. apply in_map_iff. exists c. split; [reflexivity|eapply nth_error_In; exact H].
+  - destruct (run_loop sv cs Hp) as (base & P & -> & _).
+    assert (Pn : Permutation (map fst base) (names cs)).
+    { rewrite <- (canon_fst (s_dead sv) cs W). apply Permutation_map. exact P. }
+    rewrite fail_remaining_id.
+    + repeat split; [|exact Pn|].
+      * eapply Permutation_NoDup; [apply Permutation_sym; exact Pn|exact D].
+      * intros i c H. eapply Permutation_in; [apply Permutation_sym; exact P|].
+        apply (canon_in (s_dead sv) cs i c W H).
+    + intros c Hc. eapply Permutation_in; [apply Permutation_sym; exact Pn|]. apply in_map. exact Hc.
+Qed.
+
+Theorem one_outcome_each_proof : forall sv cs n,
+  distinct cs -> well_named cs ->
+  (In n (names cs) -> count n (r_log (run_batch false sv cs)) = 1) /\
+  (~ In n (names cs) -> count n (r_log (run_batch false sv cs)) = 0).
+Proof.
+  intros sv cs n D W. destruct (run_log_canonical sv cs D W) as (ND & P & _). split; intros H.
+  - apply count_nodup; [exact ND|]. eapply Permutation_in; [apply Permutation_sym; exact P|exact H].
+  - apply count_notin. intros HI. apply H. eapply Permutation_in; [exact P|exact HI].
+Qed.
+
+Theorem outcome_as_specified_proof : forall sv cs i c,
+  distinct cs -> well_named cs -> nth_error cs i = Some c ->
+  final (c_name c) (r_log (run_batch false sv cs)) = Some (expected sv cs i c).
+Proof.
+  intros sv cs i c D W H. destruct (run_log_canonical sv cs D W) as (ND & _ & HI).
+  apply final_nodup; [exact ND|apply HI; exact H].
+Qed.
+
+Lemma fault_kind_setup sv cs : is_setup (fault_kind sv cs) = true.
+Proof. unfold fault_kind. destruct (s_dead sv) as [d|]; [destruct (d <=? sends_ok cs)|]; reflexivity. Qed.
+
+Theorem setup_on_fault_proof : forall sv cs i c,
+  distinct cs -> well_named cs -> nth_error cs i = Some c ->
+  prefault sv = true \/ fault_point sv cs <= i ->
+  exists k, final (c_name c) (r_log (run_batch false sv cs)) = Some k /\ is_setup k = true /\
+            k = (if prefault sv then KSetup else fault_kind sv cs).
+Proof.
+  intros sv cs i c D W H A. rewrite (outcome_as_specified_proof sv cs i c D W H).
+  unfold expected. destruct (prefault sv) eqn:Hp.
+  - exists KSetup. repeat split.
+  - destruct A as [A|A]; [discriminate|].
+    assert ((i <? fault_point sv cs) = false) as -> by (apply Nat.ltb_ge; exact A).
+    exists (fault_kind sv cs). repeat split. apply fault_kind_setup.
+Qed.
+
+Theorem keep_verdict_proof : forall sv cs i c,
+  distinct cs -> well_named cs -> nth_error cs i = Some c ->
+  prefault sv = false -> i < fault_point sv cs ->
+  final (c_name c) (r_log (run_batch false sv cs)) = Some (verdict (c_ans c)).
+Proof.
+  intros sv cs i c D W H Hp L. rewrite (outcome_as_specified_proof sv cs i c D W H).
+  unfold expected. rewrite Hp. apply Nat.ltb_lt in L. rewrite L. reflexivity.
+Qed.
+
+(* whatever the client runner reports (wrong names, duplicate names in the batch): no case
+   of the batch is without an outcome when the function returns *)
+Theorem never_missing_proof : forall sv cs c,
+  In c cs ->
+  1 <= count (c_name c) (r_log (run_batch false sv cs)) /\
+  final (c_name c) (r_log (run_batch false sv cs)) <> None.
+Proof.
+  intros sv cs c Hc.
+  assert (HI : In (c_name c) (map fst (r_log (run_batch false sv cs)))).
+  { destruct (prefault sv) eqn:Hp.
+    - rewrite run_prefault by exact Hp. rewrite map_fst_mark. apply in_map. exact Hc.
+    - destruct (run_loop sv cs Hp) as (base & _ & -> & _). apply fail_remaining_covers. exact Hc. }
+  split; [apply count_pos_in; exact HI|]. intros E. apply final_none in E. apply E, HI.
+Qed.
+
+Theorem no_callback_outstanding_proof : forall sv cs, r_pend (run_batch false sv cs) = [].
+Proof.
+  intros sv cs. destruct (prefault sv) eqn:Hp.
+  - revert Hp. unfold prefault, run_batch. destruct (s_start sv); simpl; [|reflexivity].
+    destruct (if s_refsrv sv then _ else _) as [sbs fwd].
+    destruct (s_write sv); simpl; try reflexivity.
+    destruct (s_resp sv) as [cert|]; simpl; [|reflexivity]. intros ->. reflexivity.
+  - destruct (run_loop sv cs Hp) as (_ & _ & _ & H). exact H.
+Qed.
+
+(* ---------- the process is asked to stop, and ends exactly once ---------- *)
+Lemma early_stop cs sbs fwd alive :
+  let r := early cs sbs fwd alive in
+  r_started r = true /\ r_aborts r = 1 /\ r_alive r = false /\ r_ends r = 1.
+Proof. unfold early, abort_proc, die. destruct alive; simpl; repeat split. Qed.
+
+Theorem stop_requested_proof : forall sv cs,
+  let r := run_batch false sv cs in
+  r_started r = s_start sv /\
+  (s_start sv = true -> 1 <= r_aborts r /\ r_alive r = false /\ r_ends r = 1) /\
+  (s_start sv = false -> r_aborts r = 0 /\ r_ends r = 0).
+Proof.
+  intros sv cs. unfold run_batch. destruct (s_start sv); simpl.
+  2:{ repeat split; intros; discriminate. }
+  destruct (if s_refsrv sv then _ else _) as [sbs fwd].
+  assert (E : forall alive, let r := early cs sbs fwd alive in
+            r_started r = true /\ (true = true -> 1 <= r_aborts r /\ r_alive r = false /\ r_ends r = 1) /\
+            (true = false -> r_aborts r = 0 /\ r_ends r = 0)).
+  { intros alive. destruct (early_stop cs sbs fwd alive) as (A & B & C & D). cbv zeta.
+    rewrite A, B, C, D. repeat split; try lia; discriminate. }
+  destruct (s_write sv); try apply E.
+  destruct (s_resp sv) as [cert|]; [|apply E].
+  destruct (s_tls sv && negb cert); [apply E|].
+  match goal with |- context [send_loop ?a ?b ?c ?d] => destruct (send_loop a b c d) as [l1 ex] eqn:L end.
+  apply loop_perm in L; [|reflexivity]. destruct L as (_ & Hp).
+  assert (Hp0 : pstate l1 = 1).
+  { rewrite Hp. unfold pstate. simpl. destruct (negb (is_zero (s_dead sv))); reflexivity. }
+  destruct (wait_all_spec (s_refcli sv) l1) as (_ & _ & _ & Wa & We).
+  assert (Hw : pstate (wait_all (s_refcli sv) l1) = 1) by (unfold pstate in *; rewrite Wa, We; exact Hp0).
+  destruct (die_spec (wait_all (s_refcli sv) l1)) as (_ & _ & _ & Da & Dp).
+  destruct (die_spec (abort_proc (wait_all (s_refcli sv) l1))) as (_ & _ & _ & Ea & Ep).
+  unfold abort_proc in *.
+  assert (Hends : l_ends (die (die (wait_all (s_refcli sv) l1))) = 1).
+  { unfold pstate in Ep, Dp, Hw. rewrite Ea in Ep. rewrite Da in Ep, Dp. lia. }
+  destruct ex; simpl; rewrite ?Ea, ?Hends; repeat split; try lia; discriminate.
+Qed.
